@@ -13,19 +13,29 @@ from ..lab import CONTENTS, MD5, make_odb, put_raw
 from ..world import World, digest_obj
 
 D = {"a": "x", "s/b": "y", "s/t/c": "z", "u/v/w/leaf": "w"}   # u, u/v, u/v/w hold no file themselves
-N = {"k": "w", "m/q": "x"}
+N = {"k": "w", "m/q": "x", "m/z": "e"}   # m/z is an empty file; N's directory object records sizes
+
+
+def n_listing_bytes():
+    """Directory object of N as written with metadata: every entry also carries its size (0 for m/z)."""
+    import json
+
+    lst = [{"md5": MD5[c], "relpath": r, "size": len(CONTENTS[c])} for r, c in sorted(N.items())]
+    return json.dumps(lst, sort_keys=True).encode()
 
 
 def oid_of(tree):
+    if tree is N:
+        return ref.md5(n_listing_bytes()) + ".dir"
     return ref.tree_oid({r: MD5[c] for r, c in tree.items()})
 
 
 def fill(odb):
-    for c in ("x", "y", "z", "w"):
+    for c in ("x", "y", "z", "w", "e"):
         put_raw(odb, MD5[c], CONTENTS[c])
-    for t in (D, N):
-        lst = {r: MD5[c] for r, c in t.items()}
-        put_raw(odb, ref.tree_oid(lst), ref.tree_bytes(lst))
+    lst = {r: MD5[c] for r, c in D.items()}
+    put_raw(odb, ref.tree_oid(lst), ref.tree_bytes(lst))
+    put_raw(odb, oid_of(N), n_listing_bytes())
 
 
 def make_index(kind, backend, w, odb, tag):
@@ -53,7 +63,10 @@ def make_index(kind, backend, w, odb, tag):
                 parts = tuple(rel.split("/"))
                 for i in range(1, len(parts)):
                     dirs.add(parts[:i])
-                put(base + parts, meta=Meta(md5=MD5[c]), hash_info=HashInfo("md5", MD5[c]))
+                if tree is N:
+                    put(base + parts, meta=Meta(md5=MD5[c], size=len(CONTENTS[c])), hash_info=HashInfo("md5", MD5[c]))
+                else:
+                    put(base + parts, meta=Meta(md5=MD5[c]), hash_info=HashInfo("md5", MD5[c]))
             for dk in dirs:
                 put(base + dk, meta=Meta(isdir=True), loaded=True)
     idx.storage_map.add_cache(ObjectStorage((), odb))
@@ -65,7 +78,7 @@ def make_index(kind, backend, w, odb, tag):
 TWIN_KEYS = [("f",), ("e",), ("e", "g"), ("d",), ("e", "n"),
              ("d", "a"), ("d", "s"), ("d", "s", "b"), ("d", "s", "t"), ("d", "s", "t", "c"),
              ("d", "u"), ("d", "u", "v"), ("d", "u", "v", "w"), ("d", "u", "v", "w", "leaf"),
-             ("e", "n", "k"), ("e", "n", "m"), ("e", "n", "m", "q")]
+             ("e", "n", "k"), ("e", "n", "m"), ("e", "n", "m", "q"), ("e", "n", "m", "z")]
 DIR_KEYS = [(), ("e",), ("d",), ("e", "n"), ("d", "s"), ("d", "s", "t"), ("e", "n", "m"), ("d", "u"),
             ("d", "u", "v")]
 ABSENT = [("zz",), ("d", "zz"), ("d", "a", "zz"), ("e", "n", "zz"), ("d", "s", "zz")]
@@ -103,7 +116,7 @@ def queries():
         q.append(("fs-info", p))
     q.append(("fs-find", "/"))
     q.append(("fs-find", "/d/s"))
-    for p in ("/f", "/d/a", "/d/s/t/c", "/e/n/m/q", "/e/g", "/d/zz", "/d/u/v/w/leaf"):
+    for p in ("/f", "/d/a", "/d/s/t/c", "/e/n/m/q", "/e/n/m/z", "/e/g", "/d/zz", "/d/u/v/w/leaf"):
         q.append(("fs-cat", p))
         q.append(("fs-get", p))
         q.append(("fs-checksum", p))
@@ -120,7 +133,7 @@ TRIGGERS = [("get", ("d", "a")), ("get", ("e", "n", "m", "q")), ("get", ("d", "z
             ("ls", ()), ("ls", ("d",)), ("ls", ("e", "n")), ("ls", ("d", "s")), ("items", ()),
             ("items-shallow", ()), ("items", ("e",)), ("diff", "lazy-vs-twin"), ("view-iter", "d/s"),
             ("view-iter", "e/n/m"), ("view-ls", "all", ("d",)), ("fs-ls", "/d/s"), ("fs-cat", "/e/n/m/q"),
-            ("fs-find", "/"), ("load",), ("fs-info", "/e/n/m")]
+            ("fs-find", "/"), ("load",), ("fs-info", "/e/n/m"), ("persist",)]
 
 
 def ent(e):
@@ -212,10 +225,10 @@ def expected_extra(q):
         f = FILTERS[q[1]]
         return sorted(k for k in TWIN_KEYS if f(k))
     if q[0] in ("fs-cat", "fs-get"):
-        want = {"/f": "x", "/d/a": "x", "/d/s/t/c": "z", "/e/n/m/q": "x", "/e/g": "y", "/d/u/v/w/leaf": "w"}
+        want = {"/f": "x", "/d/a": "x", "/d/s/t/c": "z", "/e/n/m/q": "x", "/e/n/m/z": "e", "/e/g": "y", "/d/u/v/w/leaf": "w"}
         return CONTENTS[want[q[1]]] if q[1] in want else ("EXC", "FileNotFoundError")
     if q[0] == "fs-checksum":
-        want = {"/f": "x", "/d/a": "x", "/d/s/t/c": "z", "/e/n/m/q": "x", "/e/g": "y", "/d/u/v/w/leaf": "w"}
+        want = {"/f": "x", "/d/a": "x", "/d/s/t/c": "z", "/e/n/m/q": "x", "/e/n/m/z": "e", "/e/g": "y", "/d/u/v/w/leaf": "w"}
         return MD5[want[q[1]]] if q[1] in want else ("EXC", "FileNotFoundError")
     if q[0] == "diff":
         return []
@@ -233,6 +246,25 @@ def run_seq(seq, backend):
         lazy = make_index("lazy", backend, w, odb, "lazy")
         twin_for_diff = make_index("twin", backend, w, odb, "twin0")
         for i, q in enumerate(seq):
+            if q[0] == "persist":
+                # everything is loaded and committed, the index is closed and opened again (SQLite), and the
+                # directory objects leave the storage: every file is listed in the index by now, so nothing
+                # may depend on them any more (loading is idempotent and its result persistent)
+                if backend != "mem":
+                    import os
+
+                    from dvc_data.index import DataIndex, ObjectStorage
+
+                    list(lazy.iteritems())   # a deep iteration loads every directory object
+                    lazy.commit()
+                    lazy.close()
+                    lazy = DataIndex.open(w.p("lazy.sqlite"))
+                    lazy.storage_map.add_cache(ObjectStorage((), odb))
+                    for t in (D, N):
+                        pth = odb.oid_to_path(oid_of(t))
+                        if os.path.exists(pth):
+                            os.unlink(pth)
+                continue
             key = (backend, repr(q))
             twin = None
             if key not in _TWIN_ANS:
@@ -269,7 +301,7 @@ def storage_index_case(case):
 
     res = {"n": 0, "trans": 0, "states": [], "outcomes": set(), "nontrivial": set(), "viol": [],
            "vac": {"storage_index_reads": 0}}
-    want = {"/f": "x", "/d/a": "x", "/d/s/t/c": "z", "/e/n/m/q": "x", "/e/g": "y", "/d/u/v/w/leaf": "w"}
+    want = {"/f": "x", "/d/a": "x", "/d/s/t/c": "z", "/e/n/m/q": "x", "/e/n/m/z": "e", "/e/g": "y", "/d/u/v/w/leaf": "w"}
     for scen in ("empty-cache-index", "stale-cache-index-remote-has-it"):
         with World() as w:
             cache = make_odb("local", w.p("cache"))
